@@ -410,6 +410,11 @@ impl<'a> Gen<'a> {
         let nspans = all.len();
         // nested frame endings
         if let Some(n) = th.nest.last() {
+            if th.scoped.len() > n.base && matches!(n.kind, NestKind::Closure) {
+                // the closure returns while scopes / local spans it opened are still alive (they
+                // were moved out of it): legal, and they are still released in reverse order
+                cands.push((1, c(vec![s("cret")])));
+            }
             if th.scoped.len() == n.base {
                 match &n.kind {
                     NestKind::Closure => cands.push((8, c(vec![s("cret")]))),
